@@ -38,6 +38,7 @@ FIXMAP = {
  'scalar() declares the series': ['C18'],
  'timestamp() returns the timestamps': ['C06', 'C01'],
  'match vector-vector operands per step': ['C05', 'C01', 'C19'],
+ 'one-to-one match reports several matches': ['C05'],
  'sum and avg seed the accumulator': ['C04', 'C05'],
  'a cancelled evaluation is reported': ['C14'],
 }
